@@ -75,6 +75,23 @@ NEEDS = {
  "C15-w4m1": ("string mux header built in a pooled buffer released too early", "two overlapping Tells on different channels", ""),
  "C16-w4m1": ("udpswarm.Addr.String via net.UDPAddr prints IPv4-mapped addresses as IPv4", "an IPv4-mapped address", "missed at first: the text survives marshal-parse-marshal, only the VALUE changes; the oracle now also compares address values (reflect.DeepEqual of the original and the parsed address)"),
  "C16-w4m3": ("multiswarm schema closures capture the loop variable (go 1.21 semantics)", "multiswarm over two transports with different address grammars", ""),
+ "C02-r2m3": ("handshake completion through application data returns before the replay window is consulted", "initiator, RespDone lost or behind the responder's first data, exactly that message replayed", ""),
+ "C03-r2m2": ("verifyAuthClaim wraps the wrong (nil) error: a failed signature check is swallowed", "a RespHello whose signature does not verify", ""),
+ "C05-r2m1": ("key binding enforced only while a current session exists", "a handshake by another accepted key after the current session expired", ""),
+ "C05-r2m2": ("a refused handshake clears the current slot instead of the prospective one", "initiator refusing the responder's key; the refused peer keeps sending", ""),
+ "C05-r2m3": ("the ready-time key check is made on first contact only", "a rekey or re-handshake initiated by the channel and answered by another key", ""),
+ "C06-r2m1": ("responder keeps a reference to the caller's receive buffer for the repeated-InitDone check", "RespDone lost and the caller reusing its receive buffers", "not a violation of C06 as stated (the statement's fair suffix also delivers the responder's own current handshake message, which still heals); missed by C07 at first because the channel world handed every message in a fresh buffer that was never reused: the harness now overwrites the receive buffer when the callback returns; reported by C07"),
+ "C06-r2m3": ("cached handshake messages are handed out without copying", "caller reusing the returned slice as its output buffer", "missed at first (the session world passed nil output buffers and never touched what it got back); it now passes scratch buffers and overwrites input and output buffers after use"),
+ "C08-r2m1": ("FIND_NODE result preallocated with the remote's (possibly negative) limit", "a request with a negative limit", ""),
+ "C08-r2m2": ("mbapp deletes from its in-flight map under the read lock", "two receive workers handling reply-flagged packets in parallel (fatal concurrent map write)", "not reachable under the serialising scheduler of C08; reported by C14's race legs (data-race)"),
+ "C10-r2m2": ("mbapp copies a fragment into the buffer after releasing the collector lock", "two receive workers on fragments of one message, one claiming the message while the other still copies", "missed at first: the instrumenter had no scheduling point AFTER an explicit Unlock; added (this also exposed H52)"),
+ "C14-r2m3": ("Queue.DeliverVec adopts a single-segment sender buffer as the message's storage", "single-segment Tell on the in-memory swarm, sender reusing its buffer", ""),
+ "C18-r2m2": ("overwriting an entry with an earlier expiry leaves the bucket's minimum stale", "overwrite shortening a TTL, Expire between the new and the old minimum", ""),
+ "C18-r2m3": ("eviction fallback forgets to decrement the count", "capacity at the constructor boundary, all buckets at the minimum", ""),
+ "C19-r2m1": ("ForEach clamps the query key to the locus length", "a cache whose keys are longer than its locus (DHTNode with a small peer cache), ties on the covered prefix", "missed at first (the cache worlds used keys of exactly the locus length); keys 1, 2 or up to 31 bytes longer than the locus added"),
+ "C19-r2m3": ("ForEachCloser compares with swapped arguments", "an entry in a deeper bucket nearer to the key than the locus", ""),
+ "C20-r2m1": ("the visited check after pop was removed", "an initial peer list naming one node twice", ""),
+ "C20-r2m3": ("MinAccepted below 2 is silently raised to 2", "MinAccepted 1 and exactly one acceptor", ""),
 }
 for d in sorted(glob.glob('/verif/seeded/*/')):
     sid = os.path.basename(d.rstrip('/'))
